@@ -1,6 +1,6 @@
 (* Evaluators used by the C08 correspondence cases (harness/src/bin/c08.rs).  Style: stdlib. *)
 From TV Require Import Base.Prelude Generated.Constants
-  Columnar.BitPack Columnar.MonoMap Columnar.Stats Columnar.Line Columnar.Blockwise Columnar.Spec.
+  Columnar.BitPack Columnar.MonoMap Columnar.Stats Columnar.Line Columnar.Blockwise Columnar.OptionalIndex Columnar.Spec.
 Local Open Scope N_scope.
 
 (* a model reader applied to the implementation's bytes answers `expect` at the indexes `idxs` *)
@@ -15,3 +15,15 @@ Definition stats_tie (vals : list N) (mn mx rows : N) : bool :=
 (* the model of the bit-packed range lookup on the implementation's bytes answers `rows` *)
 Definition range_reads_as (col : (N * N * N * N) * bytes) (lo hi : N) (r0 r1 : nat) (rows : list nat) : bool :=
   nat_list_eqb (bitpacked_range_rows col lo hi r0 r1) rows.
+
+(* optional index: the model built from the rows answers rank / rank_if_exists / select as the implementation *)
+Definition opt_tie (num_rows : N) (rows docs ranks er : list N) (erie : list (option N)) (esel : list N) : bool :=
+  let oi := optional_index_build num_rows rows in
+  list_eqb option_n_eqb (map (oi_rank oi) docs) (map Some er) &&
+  list_eqb option_n_eqb (map (oi_rank_if_exists oi) docs) erie &&
+  list_eqb option_n_eqb (map (oi_select oi) ranks) (map Some esel).
+(* ... and the implementation's answers satisfy the specification on the row list *)
+Definition opt_spec (rows docs ranks er : list N) (erie : list (option N)) (esel : list N) : bool :=
+  n_list_eqb (map (spec_rank rows) docs) er &&
+  list_eqb option_n_eqb (map (spec_rank_if_exists rows) docs) erie &&
+  list_eqb option_n_eqb (map (spec_select rows) ranks) (map Some esel).
